@@ -2,6 +2,7 @@ import Mrpro.Model.Proto
 import Mrpro.Model.OpsND
 import Mrpro.Model.Fourier
 import Mrpro.Model.AlgebraExec
+import Mrpro.Model.OpMatrixExec
 import Mrpro.Model.CG
 import Mrpro.Model.Functional
 import Mrpro.Model.PowerIter
@@ -85,6 +86,48 @@ partial def parseExpr (j : Json) : Except String (Expr CRat) := do
   | "adj" => pure (.adj (← parseExpr (← j.getObjVal? "a")))
   | "gram" => pure (.gram (← parseExpr (← j.getObjVal? "a")))
   | _ => throw s!"expr tag {t}"
+
+def parseIdx (j : Json) : Except String Idx := do
+  let t ← getStr j "t"
+  match t with
+  | "int" => pure (.int (← getInt j "i"))
+  | "seq" => pure (.seq (← getInts j "l"))
+  | "all" => pure .all
+  | "slice" =>
+      let a := match j.getObjValAs? Int "start" with | .ok v => some v | .error _ => none
+      let b := match j.getObjValAs? Int "stop" with | .ok v => some v | .error _ => none
+      pure (.slice a b)
+  | _ => throw s!"idx tag {t}"
+
+partial def parseMExpr (j : Json) : Except String (MExpr CRat) := do
+  let t ← getStr j "t"
+  let sub := fun (k : String) => do parseMExpr (← j.getObjVal? k)
+  let ex := fun (k : String) => do parseExpr (← j.getObjVal? k)
+  let sc := fun (k : String) => do parseScal (← j.getObjVal? k)
+  let scs := fun (k : String) => do (← j.getObjValAs? (Array Json) k).toList.mapM parseScal
+  match t with
+  | "lit" =>
+      let rows ← j.getObjValAs? (Array (Array Json)) "rows"
+      pure (.lit (← rows.toList.mapM (fun r => r.toList.mapM parseExpr)))
+  | "fromDiag" => pure (.fromDiag (← (← j.getObjValAs? (Array Json) "ops").toList.mapM parseExpr))
+  | "matmul" => pure (.matmul (← sub "a") (← sub "b"))
+  | "matmulOp" => pure (.matmulOp (← sub "a") (← ex "o"))
+  | "add" => pure (.add (← sub "a") (← sub "b"))
+  | "addOp" => pure (.addOp (← sub "a") (← ex "o"))
+  | "addT" => pure (.addT (← sub "a") (← sc "s"))
+  | "rmul" => pure (.rmul (← sc "s") (← sub "a"))
+  | "rmulSeq" => pure (.rmulSeq (← scs "ss") (← sub "a"))
+  | "mul" => pure (.mul (← sub "a") (← sc "s"))
+  | "mulSeq" => pure (.mulSeq (← sub "a") (← scs "ss"))
+  | "H" => pure (.H (← sub "a"))
+  | "getitem" => pure (.getitem (← sub "a") (← parseIdx (← j.getObjVal? "ri")) (← parseIdx (← j.getObjVal? "ci")))
+  | "vstack" => pure (.vstack (← sub "a") (← sub "b"))
+  | "vstackOp" => pure (.vstackOp (← sub "a") (← ex "o"))
+  | "opVstack" => pure (.opVstack (← ex "o") (← sub "a"))
+  | "hstack" => pure (.hstack (← sub "a") (← sub "b"))
+  | "hstackOp" => pure (.hstackOp (← sub "a") (← ex "o"))
+  | "opHstack" => pure (.opHstack (← ex "o") (← sub "a"))
+  | _ => throw s!"mexpr tag {t}"
 
 /-- complex vectors as a *real* inner-product space: `dot u v = Re ∑ conj(u_i) v_i`, real scalars -/
 def arrOps : VecOps Rat (Array CRat) where
@@ -274,6 +317,20 @@ def handle (j : Json) : Except String Json := do
       if which == "build" then pure (Json.mkObj [("build", cratsJson ((List.range n).map r1))])
       else if which == "den" then pure (Json.mkObj [("den", cratsJson ((List.range n).map r2))])
       else pure (Json.mkObj [("build", cratsJson ((List.range n).map r1)), ("den", cratsJson ((List.range n).map r2))])
+  | "opmatrix" =>
+      -- a LinearOperatorMatrix program on dense n×n leaves: shape of the built matrix, forward or adjoint on a list of vectors
+      let n ← getNat j "n"
+      let leaves := (← getCRatss j "leaves").toArray.map (·.toArray)
+      let prog ← parseMExpr (← j.getObjVal? "e")
+      let xs := (← getCRatss j "xs").map (·.toArray)
+      let adj ← getBool j "adj"
+      let A := fun (l : Nat) (g : Nat) => (leaves.getD l #[]).getD g 0
+      let shp := match evalShape prog with
+        | some (r, c) => Json.arr #[Json.num (JsonNumber.fromNat r), Json.num (JsonNumber.fromNat c)]
+        | none => Json.null
+      match evalProgram n A prog adj xs with
+      | some ys => pure (Json.mkObj [("status", Json.str "ok"), ("shape", shp), ("ys", Json.arr (ys.map (fun y => cratsJson ((List.range n).map (toFn y)))).toArray)])
+      | none => pure (Json.mkObj [("status", Json.str "raises"), ("shape", shp)])
   | "cg" =>
       let n ← getNat j "n"
       let hm := (← getCRats j "H").toArray
